@@ -71,6 +71,46 @@ def anchor(d):
         raise Undecided("bad anchor in directive %r" % d)
     return m.group(1).strip(), int(m.group(2) or 1), d[m.end():]
 
+def _one_directive(w, key, d, t, rx):
+    if key == "@r10":
+        if w.r10_concat() == 0:
+            raise LookupError("lost anchor: no `[..].concat()` for @r10")
+        return
+    if key == "@sig":
+        w.weave_sig(t); pass
+    elif key == "@entry":
+        w.weave_entry(t)
+    elif key == "@loop":
+        parts = d.split()
+        k = int(parts[1])
+        itn = parts[3] if len(parts) > 3 and parts[2] == "iter" else None
+        w.weave_loop(k, t, itn)
+    elif key == "@before":
+        s, k, _ = anchor(d); w.weave_before(s, k, t)
+    elif key == "@after":
+        s, k, _ = anchor(d); w.weave_after(s, k, t)
+    elif key == "@at":
+        s, k, rest = anchor(d)
+        w.weave_at(s, k, rest.split(":=", 1)[1].strip() + " ")
+    elif key == "@closure":
+        m = re.match(r"@closure\s+(\d+)\s*:=\s*(.*)", d + " " + t.replace("\n", " "), re.S)
+        w.weave_closure(int(m.group(1)), m.group(2))
+    elif key == "@split-arm":
+        s, k, _ = anchor(d); w.r11_split_arm(s, k)
+    elif key == "@subst":
+        m = re.match(r"@subst\s*<<(.*?)>>\s*=>\s*<<(.*?)>>\s*(?:x(\d+)\s*)?why:\s*(.*)", d, re.S)
+        if not m:
+            raise Undecided("bad @subst %r" % d)
+        n = w.subst(m.group(1), m.group(2), "RX", int(m.group(3)) if m.group(3) else None)
+        if n == 0:
+            raise LookupError("lost anchor: subst %r" % m.group(1))
+        rx.append({"old": m.group(1), "new": m.group(2), "n": n, "why": m.group(4).strip()})
+    elif key == "@drop-tail":
+        s, k, rest = anchor(d)
+        w.r9_drop_tail(s, k, rest.split("=>", 1)[1].strip())
+    else:
+        raise Undecided("unknown directive %r" % d)
+
 def build_item(kind, head, secs, probe, report):
     path, _, selector = head.partition(" :: ")
     path = path.strip(); selector = selector.strip()
@@ -91,6 +131,7 @@ def build_item(kind, head, secs, probe, report):
     ret = "ret"
     rx = []
     has_sig = False
+    skipped = []
     try:
         if it.kind == "struct" and "@no-r7" not in flags:
             w.r7_pub_fields()
@@ -107,6 +148,16 @@ def build_item(kind, head, secs, probe, report):
         for d, t in secs:
             key = d.split()[0]
             if key in ("@ret", "@derive", "@no-r1", "@no-r5", "@no-r7"):
+                continue
+            # optional form `@closure? / @subst? / @before? ...`: when the anchor no longer exists in the
+            # source (e.g. the annotated statement was deleted) the weave is skipped instead of making the
+            # whole unit UNDECIDED; the function is then verified without that ghost text
+            if key.endswith("?"):
+                d = d.replace(key, key[:-1], 1); key = key[:-1]
+                try:
+                    _one_directive(w, key, d, t, rx)
+                except LookupError as e:
+                    skipped.append("%s (%s)" % (d[:60], e))
                 continue
             if key == "@r10":
                 if w.r10_concat() == 0:
@@ -163,7 +214,7 @@ def build_item(kind, head, secs, probe, report):
     l0, l1 = it.lines()
     report.append({"path": path, "selector": selector, "kind": it.kind, "name": it.name,
                    "lines": [l0, l1], "sha256": it.sha(), "rewrites": rules, "rx": rx,
-                   "contracted": has_sig})
+                   "contracted": has_sig, "skipped_optional": skipped})
     return rsx.strip_markers(marked)
 
 def build_expr_after(head, secs, report):
